@@ -136,6 +136,20 @@ func buildWorker(race bool) string {
 		outp = filepath.Join(root, "bin", fmt.Sprintf("worker.%d.race.test", os.Getpid()))
 		args = []string{"test", "-c", "-race", "-tags", "verif", "-o", outp}
 	}
+	// VERIF_REPO_DIR (development aid: test a scratch copy of the repository
+	// without touching /repo): build through an alternative module file.
+	if alt := os.Getenv("VERIF_REPO_DIR"); alt != "" {
+		gm, err := os.ReadFile(filepath.Join(root, "sim", "go.mod"))
+		if err != nil {
+			fatal2("%v", err)
+		}
+		mf := filepath.Join(root, "bin", fmt.Sprintf("alt.%d.mod", os.Getpid()))
+		os.WriteFile(mf, bytes.Replace(gm, []byte("=> /repo"), []byte("=> "+alt), 1), 0o644)
+		sum, _ := os.ReadFile(filepath.Join(alt, "go.sum"))
+		os.WriteFile(strings.TrimSuffix(mf, ".mod")+".sum", sum, 0o644)
+		args = append(args, "-modfile="+mf)
+		builtBins = append(builtBins, mf, strings.TrimSuffix(mf, ".mod")+".sum")
+	}
 	args = append(args, "./worker")
 	// go.sum follows the repository's (missing lines for harness-only
 	// modules are added from the module cache by -mod=mod).
@@ -326,12 +340,17 @@ func sigKey(v Violation) string {
 	if i := strings.Index(m, "\n"); i >= 0 {
 		m = m[:i]
 	}
+	marker := ""
+	if i := strings.Index(m, " [mixed explicit/announce"); i >= 0 {
+		marker = " [mixed]"
+		m = m[:i]
+	}
 	m = brRe.ReplaceAllString(m, "[..]")
 	m = cidRe.ReplaceAllString(m, "CID")
 	if len(m) > 160 {
 		m = m[:160]
 	}
-	return v.Oracle + ": " + numRe.ReplaceAllString(m, "N")
+	return v.Oracle + ": " + numRe.ReplaceAllString(m, "N") + marker
 }
 
 func loadKnown() []KnownFinding {
@@ -474,7 +493,7 @@ func dedupStr(in []string) []string {
 }
 
 // minimise shrinks a failing tape while the same oracle keeps firing.
-func minimise(bin string, r Result, tier string, budget time.Duration) (Result, int) {
+func minimise(bin string, r Result, tier string, budget time.Duration, same func(Violation) bool) (Result, int) {
 	best := r
 	want := r.Viol[0].Oracle
 	deadline := time.Now().Add(budget)
@@ -491,7 +510,7 @@ func minimise(bin string, r Result, tier string, budget time.Duration) (Result, 
 			go func(i int, c []uint32) {
 				defer func() { <-sem }()
 				rr, ok := replayOnce(bin, r.Scen, tier, r.Seed, r.Case, c)
-				if ok && !rr.OK && len(rr.Viol) > 0 && rr.Viol[0].Oracle == want {
+				if ok && !rr.OK && len(rr.Viol) > 0 && rr.Viol[0].Oracle == want && (same == nil || same(rr.Viol[0])) {
 					if len(rr.Tape) == 0 {
 						rr.Tape = c
 					}
@@ -878,7 +897,9 @@ func check(prop, tier string) int {
 		}
 		if len(res.Tape) > 0 && v.Oracle != "race" {
 			var tries int
-			res, tries = minimise(bins[race], res, tier, 60*time.Second)
+			// a candidate must stay the same kind of violation: same oracle
+			// and still not a listed known finding
+			res, tries = minimise(bins[race], res, tier, 60*time.Second, func(x Violation) bool { return matchKnown(known, prop, x) == nil })
 			minimised = true
 			_ = tries
 			// final confirmation replay in a fresh process
